@@ -87,7 +87,7 @@ def run(tier, rep):
     # ---- (b) families + random
     progs = families.all_families(tier, seed())
     fam_cases, counts = famcheck.run_families("C01", rep, progs, "c01")
-    # ---- (c) pass by pass: the Mono, Lift and ANF terms of every accepted program mean what the program means (IRSem.tla)
+    # ---- (c) pass by pass: the Core, Mono, Lift and ANF terms of every accepted program mean what the program means (IRSem.tla)
     import irsem
     todo = {}
     expect = {}
@@ -105,7 +105,7 @@ def run(tier, rep):
     stage_counts = {}
     for i, stages in stage_out.items():
         status, out, ident = expect[i]
-        for stg in ("mono", "lift", "anf"):
+        for stg in irsem.STAGES:
             r = stages[stg]
             if r["status"] in ("unsupported", "inconclusive"):
                 key = "outside-modelled-subset"
